@@ -258,7 +258,7 @@ TRIGGERS = {"markup-inside-another-attribute": (_tricky, _neutralise_tricky)}
 EVALUATORS = {"html": eval_html, "rawdoc": eval_rawdoc}
 
 BASE = "http://www.site.com/dir/page.html"
-HREFS = ["&#32;http://a.com/ent&#x20;", "&#9;/rel-ent", "http://a.com:00008/x", "http://lemonde.fr:99999/x", "//[x", "http://[@lemonde.fr/", "http://[::1", "http://a.com:abc/", "http://[::1]:8080/ok", "\n  http://a.com/nl\n", "http://a.com/?id=3&amp;amp;copy=2", "/a&amp;#x2F;b&amp;lt;", "//intranet/d", "//static.site.zzzz/c", "//localhost/x", "http://a.com/x", "https://b.org/y?z=1&amp;w=2", "//c.net/p", "/rel", "rel/x", "../up", "#frag", "javascript:void(0)", "mailto:x@y.z", "",
+HREFS = ["&Tab;http://a.com/named-ent&NewLine;", "&nbsp;/rel-named&nbsp;", "&NewLine;//c.net/named", "&#32;http://a.com/ent&#x20;", "&#9;/rel-ent", "http://a.com:00008/x", "http://lemonde.fr:99999/x", "//[x", "http://[@lemonde.fr/", "http://[::1", "http://a.com:abc/", "http://[::1]:8080/ok", "\n  http://a.com/nl\n", "http://a.com/?id=3&amp;amp;copy=2", "/a&amp;#x2F;b&amp;lt;", "//intranet/d", "//static.site.zzzz/c", "//localhost/x", "http://a.com/x", "https://b.org/y?z=1&amp;w=2", "//c.net/p", "/rel", "rel/x", "../up", "#frag", "javascript:void(0)", "mailto:x@y.z", "",
          "http://bad.zzzz/x", BASE, "HTTP://A.COM/x", "http://a.com/x#frag", "http://a.com/a&#x2F;b", "http://a.com/é", "/p?q=1&amp;r=2",
          "http://a.com:80/x/../x", "http://www.site.com/dir/page.html#top", "page.html", "?q=2", "http://a.com/%7Ex", "http://a.com/~x", "ftp://f.org/z",
          "  http://a.com/padded  ", "http://localhost:8000/x", "tel:+33", "/a:b", "http://xn--9ca.fr/", "http://é.fr/"]
